@@ -258,11 +258,28 @@ Theorem service_one_entry_per_running_context :
 Proof. exact one_entry_per_running_context. Qed.
 Print Assumptions service_one_entry_per_running_context.
 
-(** The end-blocker has no aborting path (contexts created by MsgCallService: no module callback). *)
+(** The end-blocker never aborts on a state satisfying the invariant — including the callbacks of
+    the oracle and random modules that the expiration handler invokes (Keeper.Callback ->
+    HandlerResponse).  Both HandlerResponse dereference a nil error when called with no output
+    and no error, and random's when the seed has the wrong length
+    ([service_callback_would_abort_without_threshold]: the model has that abort); neither is
+    reachable, because a context owned by a module has a batch response threshold >= 1 (so "no
+    error" comes with an output) and a random context has a single request (so a batch that has
+    an output is completed, and a completed batch is not called back at its expiration). *)
 Theorem blocks_total_service :
-  forall s res, snd (step s (EndBlock res)) <> Abort.
+  forall s res, QInv s -> snd (step s (EndBlock res)) <> Abort.
 Proof. exact ProofsService.blocks_total_service. Qed.
 Print Assumptions blocks_total_service.
+
+Theorem service_callbacks_cannot_abort :
+  forall s id c, QInv s -> get id (ctxs s) = Some c -> negb (c_done c) && cb_aborts c = false.
+Proof. intros s id c Q Hg. apply cb_safe. exact (s_wf s Q _ _ Hg). Qed.
+Print Assumptions service_callbacks_cannot_abort.
+
+Theorem service_callback_would_abort_without_threshold :
+  exists c, c_module c <> 0 /\ c_done c = false /\ cb_aborts c = true /\ ~ wf c.
+Proof. exact callback_aborts_without_threshold. Qed.
+Print Assumptions service_callback_would_abort_without_threshold.
 
 (** Exactly once, at the due height: the logs of handled new-batch entries and of handled
     expirations are duplicate-free; every logged entry was handled by the end-blocker of its
@@ -306,12 +323,40 @@ Print Assumptions service_check_hygiene_clause_sound.
 Example service_nonvacuous :
   let ops := [Call 1 0 2 true 3 2 Ok; Call 2 0 3 false 0 0 Ok; Call 3 1 2 false 0 0 Ok;
               EndBlock [(1, NBStart 2); (2, NBStart 1); (3, NBNoFunds)];
-              Respond 2 Ok; Pause 1 0 Ok; EndBlock []; Start 1 0 Ok; EndBlock []; EndBlock [];
+              Respond 2 true true Ok; Pause 1 0 Ok; EndBlock []; Start 1 0 Ok; EndBlock []; EndBlock [];
               EndBlock [(1, NBStart 0)]; EndBlock []; EndBlock []] in
   let s := run (init 1) ops in
   map fst (ndone s) = [(1, 1); (1, 2); (1, 3); (4, 1)]
   /\ map fst (xdone s) = [(3, 1); (4, 2); (6, 1)]
   /\ map fst (ctxs s) = [3] /\ nq s = [] /\ xq s = [] /\ height s = 8.
+Proof. vm_compute. repeat split. Qed.
+(** non-vacuity with contexts owned by modules: an oracle feed (two providers, threshold 1,
+    timeout 2, every 3 blocks) started, answered by one provider only (callback with an output at
+    the expiration), edited, paused; a random oracle request started by random's begin blocker and
+    never answered (callback with an error at the expiration); a consumer message on a feed is
+    refused.  No block aborts. *)
+Example service_module_contexts_nonvacuous :
+  let ops := [CallM 1 0 1 2 true 3 (-1) 1 2 Ok; MStart 1 0 Ok; CallM 2 0 2 4 false 0 0 1 1 Ok; Pause 1 0 Rej;
+              EndBlock [(1, NBStart 2)]; MStart 2 0 Ok; Respond 1 true true Ok; EndBlock [(2, NBStart 1)];
+              EndBlock []; MUpdate 1 0 2 0 0 0 Ok; EndBlock [(1, NBStart 2)]; MPause 1 0 Ok;
+              EndBlock []; EndBlock []; EndBlock []] in
+  let s := run (init 1) ops in
+  map (fun o => snd (step (run (init 1) (firstn 4 ops)) o)) [Pause 1 0 Ok; Kill 1 0 Ok; Update 1 0 0 5 0 Ok] = [Rej; Rej; Rej]
+  /\ map fst (xdone s) = [(3, 1); (6, 2); (6, 1)] /\ map fst (ndone s) = [(1, 1); (2, 2); (4, 1)]
+  /\ map (fun x => (fst x, cstate_code (c_state (snd x)), c_thr (snd x))) (ctxs s) = [(1, 1, 2)]
+  /\ height s = 8.
+Proof. vm_compute. repeat split. Qed.
+
+(** the leak that is NOT a C13 violation: a repeated context killed between two batches loses its
+    new-batch entry at the entry's height (handled, exactly once) and then stays COMPLETED in the
+    store for ever, with no queue entry (corpus/C13/service-killed-between-batches-context-stays.jsonl
+    shows the same on the implementation). *)
+Example service_killed_between_batches_stays :
+  let ops := [Call 1 0 2 true 5 (-1) Ok; EndBlock [(1, NBStart 1)]; EndBlock []; EndBlock []; Kill 1 0 Ok]
+             ++ repeat (EndBlock []) 40 in
+  let s := run (init 1) ops in
+  map (fun x => (fst x, cstate_code (c_state (snd x)))) (ctxs s) = [(1, 2)] /\ nq s = [] /\ xq s = []
+  /\ map fst (ndone s) = [(1, 1); (6, 1)].
 Proof. vm_compute. repeat split. Qed.
 End S.
 
